@@ -31,7 +31,7 @@ REQUIRED_LABELS = {"order:noncanonical": 0.05, "kind:sub": 0.05, "kind:grade": 0
 
 
 def budget(tier):
-    n = int(os.environ.get("KV_EXAMPLES", 0)) or (8000 if tier == "quick" else 100000)
+    n = int(os.environ.get("KV_EXAMPLES", 0)) or (24000 if tier == "quick" else 100000)
     return {"examples": n, "shards": 8 if tier == "quick" else 16, "wall": 70 if tier == "quick" else 600}
 
 
@@ -60,7 +60,7 @@ def _cases(draw):
             b = draw(S.operand(d, max_len=cap))
     else:
         b = None
-    case = {"cfg": cfg, "kind": kind, "a": a, "b": b, "mode": draw(st.sampled_from(["generic", "frac", "frac"]))}
+    case = {"cfg": cfg, "kind": kind, "a": a, "b": b, "mode": draw(st.sampled_from(["generic", "frac", "frac", "typed"]))}
     if kind == "grade":
         gs = sorted(draw(st.sets(st.integers(0, d), max_size=d + 1)))
         case["grades"] = gs
@@ -75,6 +75,8 @@ def cases(tier):
 def _values(opnd, mode, prefix):
     if mode == "generic":
         return [Q.var(f"{prefix}{k}") for k in opnd["keys"]]
+    if mode == "typed" and opnd.get("tvals"):
+        return S.decode_typed(opnd["tvals"])
     return [frac(v) for v in opnd["vals"]]
 
 
